@@ -128,6 +128,7 @@ fn send_op(job: &Job, sc: &Sc, idx: usize, op: Op, sender: u8, hook_count: &Arc<
 		Op::TryRestart => job.try_restart(),
 		Op::TryGRestart => job.try_restart_with_signal(Signal::Hangup, g),
 		Op::Signal => job.signal(Signal::User1),
+		Op::SigKill => job.signal(Signal::ForceStop),
 		Op::ToWait => job.to_wait(),
 		Op::Delete => job.delete(),
 		Op::DeleteNow => job.delete_now(),
